@@ -2,6 +2,8 @@
 //
 // Bounded exhaustive enumeration on the real types.Block / types.PartSet / merkle code:
 //
+//	(reading decided by the lead: Block.Hash() alone, each intermediate commitment, ValidateBasic under the original
+//	header, and separately the part-set header must each react to a content change - see the assumptions)
 //	A. for every base block of a small family (heights 1-3, 0-3 account transactions, optionally a fourth,
 //	   confidential one, 0-2 evidence items) and every single perturbation (thorough: every pair) of a
 //	   header field, a transaction (content, order, duplication), an evidence item or the LastCommit, the
@@ -11,6 +13,7 @@
 //	   parts into a PartSet made from the signed header, against a set-of-indices reference model; the
 //	   completed set reads back and decodes to the proposer's block on both reassembly paths;
 //	C. merkle.SimpleProof.Verify for every (index,total) up to a bound and every single-aunt tamper;
+//	E. the three hashed lists for every length 0..12 (17) and every position (lists.go);
 //	D. the same reassembly inside a real ConsensusState (synchronous driver): pre-states that know more or less
 //	   of a block A x triggers that make another block B the one to fetch x BFS over all deliveries of B's parts
 //	   with duplicates, parts of A and forgeries: the held block is the part set's block, with no stale cached
@@ -119,16 +122,39 @@ func replay(r *vk.Run) {
 			}
 		}
 		res := evalVariant(base, ps, v, rc.PartSizes)
-		baseID := identOf(clone(base), rc.PartSizes)
-		fmt.Printf("base    hash=%s parts=%v\nvariant hash=%s parts=%v applied=%v panic=%q content-changed=%v\n", baseID.hash.String(), baseID.parts,
-			res.ident.hash.String(), res.ident.parts, res.ok, res.panic, res.dump != dumpHash(base))
-		same := res.ok && res.ident.hash == baseID.hash
-		for k := range rc.PartSizes {
-			same = same && res.ident.parts[k].Equals(baseID.parts[k])
+		b0 := evalVariant(base, ps, variant{}, rc.PartSizes)
+		show := func(name string, x varResult) {
+			fmt.Printf("%-8s Block.Hash=%s parts=%v data-hash=%s evidence-hash=%s commit-hash=%s ValidateBasic-rejects=%v\n", name, x.ident.hash.String(), x.ident.parts,
+				x.commit[0].String(), x.commit[1].String(), x.commit[2].String(), x.vbRejected)
 		}
-		if same && res.dump != dumpHash(base) {
-			sig := diffSignature(dumpOfVariant(base, ps, v), dump(base))
-			r.Violation("part-set-hash-collision:"+sig, "replayed: id unchanged by "+variantName(ps, v), rc)
+		show("base", b0)
+		show("variant", res)
+		fmt.Printf("applied=%v panic=%q content-changed=%v\n", res.ok, res.panic, res.dump != b0.dump)
+		if !res.ok || res.dump == b0.dump {
+			break
+		}
+		// the recorded variant against the base block (collisions between two variants are named in the replay file)
+		mine, theirs := dumpOfVariant(base, ps, v), dump(base)
+		for k := range rc.PartSizes {
+			if res.ident.parts[k].Equals(b0.ident.parts[k]) {
+				r.Violation("part-set-hash-collision:"+diffSignature(mine, theirs), "replayed: part-set header unchanged by "+variantName(ps, v), rc)
+			}
+		}
+		bodySame := res.sec[secTxs] == b0.sec[secTxs] && res.sec[secEv] == b0.sec[secEv] && res.sec[secCommit] == b0.sec[secCommit]
+		if (v.refill || bodySame) && !res.nilCommit && res.ident.hash == b0.ident.hash {
+			r.Violation("block-hash-collision:"+coarseSignature(mine, theirs), "replayed: Block.Hash() unchanged by "+variantName(ps, v), rc)
+		}
+		for q := 0; q < 3; q++ {
+			if !(q == 2 && res.nilCommit) && res.commit[q] == b0.commit[q] && res.sec[q+1] != b0.sec[q+1] {
+				r.Violation(commitName[q]+"-collision:"+coarseSignature(sectionOf(mine, q+1), sectionOf(theirs, q+1)), "replayed: "+commitName[q]+" unchanged by "+variantName(ps, v), rc)
+			}
+		}
+		headerTouched := false
+		for _, pi := range v.perts {
+			headerTouched = headerTouched || !ps[pi].body
+		}
+		if !v.refill && !headerTouched && !bodySame && !res.nilCommit && !res.vbRejected {
+			r.Violation("validatebasic-accepts-perturbed-body", "replayed: ValidateBasic accepts "+variantName(ps, v), rc)
 		}
 	case rc.Search != "" && replayConsensus(r, rc.Search, rc.OpIDs, rc):
 		// phase D history, done
@@ -431,13 +457,14 @@ func main() {
 	r.Set("traces_validated_against_impl", trans+int(deliveries))
 	r.Set("evaluations", st.variants+trans+int(deliveries)+mcases+shapeCases+eCases)
 	r.Set("distinct_nontrivial", st.distinctIDs+states)
-	r.Set("rule", "A: every variant block is built fresh and both halves of its id are computed by the real code and compared with a codec-independent dump of its content (non-trivial = distinct id); "+
+	r.Set("rule", "A: every variant block is built fresh; Block.Hash(), the part-set header, Data/Evidence/Commit hashes and ValidateBasic are computed by the real code and compared with a codec-independent dump of its content (non-trivial = distinct id); "+
+		"E: every list length 0..N x position x perturbation kind, roots by the real Txs.Hash/EvidenceList.Hash/Commit.Hash, injectivity over all lengths, plus the block-level clauses; "+
 		"B: BFS over delivery sequences into a real PartSet, state = set of received indices, every AddPart result and the observable set state compared with the reference (non-trivial = distinct state), completed sets read back and decoded on the consensus and block-store paths; "+
 		"C: every (index,total,leaf,aunts) case evaluated by the real SimpleProof.Verify; "+
 		"D: BFS over part deliveries into a real ConsensusState after a scripted pre-state and trigger, state = driver digest + received parts of B, the held ProposalBlock compared with a fresh decode of the completed part set (hash, cached sub-hashes, re-encoding, content) and the committed block with B")
 	r.Assume("phase D: 4 validators of equal power, the node under test is not the proposer of the rounds used; candidate blocks A (2 txs) and B (3 txs, 3 parts) are valid proposals of the same height that differ in header, transactions and (height 2) LastCommit; application = csnet.TrivApp; timeouts fire only where the script says; recover mode is not entered")
 	r.Assume("block content = every exported, serialized field of Header (incl. Recover), Data.Txs, Evidence and LastCommit; Header.bloom is excluded: it is neither hashed nor transmitted (it is rebuilt from the receipts)")
-	r.Assume("the oracle is the PAIR (Block.Hash(), part-set header): which half moves is recorded as coverage (only_partset_hash_changes), not judged")
+	r.Assume("reading of 'changing any of them changes the block hash or the part-set hash' (lead's decision): Block.Hash() ALONE must be injective over header-only perturbations and over bodies with recomputed header fields, every intermediate commitment (Data.Hash, EvidenceData.Hash, Commit.Hash) over its list, a perturbed body under the original header must fail ValidateBasic, and - as a separate, weaker clause - the part-set header alone must differ as well; a collision between a header-only perturbed (ValidateBasic-failing) block and a recomputed one is not judged; a block whose LastCommit was removed is left out of the Block.Hash clause (Hash() is the empty hash by design)")
 	r.Assume("keccak-256 behaves as collision resistant on the enumerated inputs; transaction kinds: Transaction, TokenTransaction and one confidential UTXOTransaction (account input -> 2 UTXO outputs + 1 account output, built by types.NewAinTransaction on the crypto stand-in; only its encoding and hash are exercised, not its proofs); UTXO-input transactions (ring signatures, key images), ContractUpgradeTx and MultiSignAccountTx are outside the bound")
 	r.Assume("content of the confidential transaction = every exported field of its object graph except MgSig.II, Bulletproof.V, RctSigBase.Message, RctSigBase.MixRing (derived at the receiver, tagged as not serialized and not hashed)")
 	r.Assume("parts reach AddPart as fresh objects decoded from the repository's wire encoding (no cached Part.hash), as in the consensus reactor; a forged part that is byte-identical to the proposer's part for its index counts as genuine")
